@@ -205,7 +205,16 @@ def adfStep (a : AdfSt) (l : String) (ws : List String) : Option (List String ×
   | ["ngbig", k] =>
     -- k mutual attack pairs: exactly 2^k stable = two-valued models (known by construction)
     let m := 2 ^ (k.toNat?.getD 0)
-    some ([l, s!"~ count={m} distinct={m} channel={m} twoval={m}"], a)
+    some ([l, s!"~ count={m} distinct={m} channel={m} twoval={m} bounded={m} bounded-distinct={m}"], a)
+  | ["ngparity", chain, _, _] =>
+    -- s0: not s1, s1: not s0, chain s2: s0, s3: s2, ..., last: exclusive or of s0 and the chain.
+    -- exactly two two-valued models, both stable (known by construction): s0 with the whole chain
+    -- true (last = parity of chain+1 members), or s1 alone
+    let c := chain.toNat?.getD 0
+    let rep (ch : Char) : String := String.ofList (List.replicate c ch)
+    let a1 := "TF" ++ rep 'T' ++ (if (c + 1) % 2 == 1 then "T" else "F")
+    let a2 := "FT" ++ rep 'F' ++ "F"
+    some ([l, s!"~ {a2} {a1}"], a)
   | ["cli", _, _, _, _, _, _, _] => some ([l, "= ran"], a)
   | ["clirun", mode, _, flags, heu, perm, order, _] =>
     match parseNatList perm ",", parseNatList order "," with
